@@ -144,7 +144,7 @@ def _down1d(shard, ctx, res, only):
                     if method == "mean" and dtype == "uint8":
                         want = np.floor(want)
                     g = np.asarray(got, dtype=np.float64)
-                    if g.shape != (m,) or np.any(np.abs(g - want) > _tol(dtype, x, f)):
+                    if g.shape != (m,) or not np.all(np.abs(g - want) <= _tol(dtype, x, f)):
                         res.violation({"site": "stats.downsample_1d", "symptom": "differs from the group mean/median", "method": method}, case,
                                       f"n={n} factor={f} dtype={dtype}: got {g.tolist()} want {want.tolist()}")
                         continue
@@ -205,7 +205,7 @@ def _down2d(shard, ctx, res, only):
                         res.evaluations += 1
                         try:
                             g = np.asarray(stats.downsample_2d(A, (f1, f2), method), dtype=np.float64)
-                            if g.shape != want.shape or np.any(np.abs(g - want) > tol):
+                            if g.shape != want.shape or not np.all(np.abs(g - want) <= tol):
                                 res.violation({"site": "stats.downsample_2d", "symptom": "differs from the block mean/median", "method": method}, case,
                                               f"shape {(d1, d2)} factors {(f1, f2)}: got {g.tolist()} want {want.tolist()}")
                             else:
@@ -218,7 +218,7 @@ def _down2d(shard, ctx, res, only):
                         try:
                             g = np.asarray(stats.downsample_2d_flat(np.ascontiguousarray(A).ravel(), f1, f2, d1, d2, method), dtype=np.float64)
                             w2 = np.floor(want) if (method == "mean" and dtype == "uint8") else want
-                            if g.shape != (n1 * n2,) or np.any(np.abs(g - w2.ravel()) > tol):
+                            if g.shape != (n1 * n2,) or not np.all(np.abs(g - w2.ravel()) <= tol):
                                 res.violation({"site": "stats.downsample_2d_flat", "symptom": "differs from the block mean/median", "method": method}, case,
                                               f"shape {(d1, d2)} factors {(f1, f2)}: got {g.tolist()} want {w2.ravel().tolist()}")
                             else:
@@ -249,7 +249,7 @@ def _detrend(shard, ctx, res, only):
         slope = float((tc * (x - x.mean())).sum() / (tc * tc).sum())
         want = x - (x.mean() + slope * tc)
         dev = float(np.max(np.abs(got - want)))
-        if got.shape != want.shape or dev > 1e-6:
+        if got.shape != want.shape or not (dev <= 1e-6):
             res.violation({"site": "kernels.detrend_1d", "symptom": "differs from the least-squares residual", "long_array": True}, case, f"n={n}: max dev {dev:.3e}")
             continue
         res.outcome("detrend/ok")
@@ -274,7 +274,7 @@ def _detrend(shard, ctx, res, only):
                 coef, *_ = np.linalg.lstsq(A, xf, rcond=None)
                 want = xf - A @ coef
             tol = _tol(dtype, x, n) * 4
-            if got.shape != want.shape or np.any(np.abs(got - want) > tol):
+            if got.shape != want.shape or not np.all(np.abs(got - want) <= tol):
                 res.violation({"site": "kernels.detrend_1d", "symptom": "differs from the least-squares residual"}, case,
                               f"n={n} dtype={dtype}: max dev {float(np.max(np.abs(got - want))):.3e} tol {tol:.3e}")
                 continue
@@ -311,7 +311,7 @@ def _containers(shard, ctx, res, only):
                     n1, n2 = C // ff, ns // tf
                     g = A.astype(np.float64)[: n1 * ff, : n2 * tf].reshape(n1, ff, n2, tf)
                     want = g.mean(axis=(1, 3)) if method == "mean" else np.median(g, axis=(1, 3))
-                    if b.data.shape != want.shape or np.any(np.abs(b.data - want) > 1e-5) or b.header.nsamples != n2 or b.header.nchans != n1 \
+                    if b.data.shape != want.shape or not np.all(np.abs(b.data - want) <= 1e-5) or b.header.nsamples != n2 or b.header.nchans != n1 \
                             or abs(b.header.tsamp - 0.002 * tf) > 1e-15 or abs(b.header.foff + 2.0 * ff) > 1e-12:
                         res.violation({"site": "FilterbankBlock.downsample", "symptom": "data or header differ from the block mean/median"}, case,
                                       f"C={C} ns={ns} ff={ff} tf={tf}: shape {b.data.shape} vs {want.shape}; hdr nsamples={b.header.nsamples} nchans={b.header.nchans} tsamp={b.header.tsamp}")
@@ -336,7 +336,7 @@ def _containers(shard, ctx, res, only):
                 m = n // f
                 grp = x.astype(np.float64)[: m * f].reshape(m, f)
                 want = grp.mean(1) if method == "mean" else np.median(grp, axis=1)
-                if d.data.shape != (m,) or np.any(np.abs(d.data - want) > _tol("float32", x, f)) or d.header.nsamples != m or abs(d.header.tsamp - 0.002 * f) > 1e-15:
+                if d.data.shape != (m,) or not np.all(np.abs(d.data - want) <= _tol("float32", x, f)) or d.header.nsamples != m or abs(d.header.tsamp - 0.002 * f) > 1e-15:
                     res.violation({"site": "TimeSeries.downsample", "symptom": "data or header differ from the group mean/median"}, case,
                                   f"n={n} factor={f}: got {np.asarray(d.data).tolist()} want {want.tolist()} tsamp={d.header.tsamp}")
                     continue
@@ -356,7 +356,7 @@ def _containers(shard, ctx, res, only):
                     res.violation({"site": "TimeSeries.deredden", "symptom": f"raised {type(e).__name__}"}, case, repr(e))
                     continue
                 want = x.astype(np.float64) - np.asarray(filt, dtype=np.float64)
-                if d.data.shape != (n,) or np.any(np.abs(d.data - want) > _tol("float32", x, wbins)):
+                if d.data.shape != (n,) or not np.all(np.abs(d.data - want) <= _tol("float32", x, wbins)):
                     res.violation({"site": "TimeSeries.deredden", "symptom": "differs from input minus running filter"}, case,
                                   f"n={n} window={wbins} bins: got {np.asarray(d.data).tolist()} want {want.tolist()}")
                     continue
